@@ -218,6 +218,12 @@ class TopoRunner:
         args = self.HANDLE_ARGS.get(o["op"])
         if args is None and o["op"] not in self.OBSERVERS:
             self.handles = {}
+        elif args is not None:
+            # a handle stays alive only while consecutive calls go through IT: a handle that sat idle while another
+            # handle changed the model is not what the property speaks about (the library keeps no handle coherent
+            # with changes made through other handles)
+            keep = {self.nid(o[a]) for a in args}
+            self.handles = {k: v for k, v in self.handles.items() if k in keep}
         import contextlib
         import io
         try:
